@@ -359,3 +359,14 @@ func ReadFile(path string) string {
 // protocol to speak through the VERIF_WORKER_MODE environment variable.
 func WorkerMode() string { return os.Getenv("VERIF_WORKER_MODE") }
 func SetWorkerMode(m string) { os.Setenv("VERIF_WORKER_MODE", m) }
+
+// WriteJSON writes v to path (engine error on failure).
+func WriteJSON(path string, v any) {
+	b, err := json.Marshal(v)
+	if err != nil {
+		EngineError("%v", err)
+	}
+	if err := os.WriteFile(path, b, 0o644); err != nil {
+		EngineError("%v", err)
+	}
+}
